@@ -427,8 +427,10 @@ def skip_edges(ck: Check, rule: str) -> None:
         for g in growth:
             loops = [l for l in fm.cfg.enclosing_loops(g.cfgn) if isinstance(l, ast.For)]
             tl = None
+            flt: list = []
             for l in loops:
-                if _trap_list_origin(prog, fm, l.iter, fm.cfg.loop_header[l], 0)[0]:
+                flt = []
+                if _trap_list_origin(prog, fm, l.iter, fm.cfg.loop_header[l], 0, flt)[0]:
                     tl = l
                     break
             if tl is None:
@@ -438,6 +440,21 @@ def skip_edges(ck: Check, rule: str) -> None:
             ok, why = _trap_list_origin(prog, fm, tl.iter, fm.cfg.loop_header[tl], 0)
             elem = tl.target.elts[-1] if isinstance(tl.target, ast.Tuple) else tl.target
             pc = dom_pc_text(fm, g.cfgn, fm.cfg.loop_nodes[tl])
+            # filters of the list the loop ranges over count as conditions of the edge (bound names aligned with the loop's)
+            for cond, tgt_ in flt:
+                a_names = [x.id for x in ast.walk(tgt_) if isinstance(x, ast.Name)]
+                b_names = [x.id for x in ast.walk(tl.target) if isinstance(x, ast.Name)]
+                if len(a_names) != len(b_names):
+                    probs.append("the trap list is filtered")
+                    continue
+                c2 = cond
+                for a_, b_ in zip(a_names, b_names):
+                    if a_ != b_:
+                        c2 = logic._rename(c2, a_, "\x00" + b_)
+                for n_ in ast.walk(c2):
+                    if isinstance(n_, ast.Name) and n_.id.startswith("\x00"):
+                        n_.id = n_.id[1:]
+                pc = logic.And(pc, logic.Translator(lambda e_: text(e_)).f(c2))
             ats = [a for a in logic.atoms(pc)]
             if ats:
                 par_space = None
@@ -469,8 +486,10 @@ def skip_edges(ck: Check, rule: str) -> None:
               "skip edges lead to every minimal trap space inside the node", key="skip edges")
 
 
-def _trap_list_origin(prog, fm: FuncModel, e: ast.AST, at, depth: int) -> tuple[bool, str]:
-    """e is (a map `space | x` over / a list of pairs built from) the result of trappist(problem='min') without limits."""
+def _trap_list_origin(prog, fm: FuncModel, e: ast.AST, at, depth: int, filters: list | None = None) -> tuple[bool, str]:
+    """e is (a map `space | x` over / a list of pairs built from) the result of trappist(problem='min') without limits.
+    Pure filters `[x for x in T if c(x)]` on the way are collected in `filters` as (condition, target) when the caller
+    can account for them; otherwise they are refused."""
     if depth > 6:
         return False, "origin too indirect"
     if isinstance(e, ast.Name):
@@ -511,17 +530,26 @@ def _trap_list_origin(prog, fm: FuncModel, e: ast.AST, at, depth: int) -> tuple[
                 if not okf:
                     return False, f"`{e.id}` is not filled from the complete trap list"
                 continue
-            r = _trap_list_origin(prog, fm, v, d, depth + 1)
+            r = _trap_list_origin(prog, fm, v, d, depth + 1, filters if len(defs) == 1 else None)
             if not r[0]:
                 return r
         return True, ""
     if isinstance(e, ast.Call) and callee_name(e) in ("copy", "list", "sorted") and e.args:
-        return _trap_list_origin(prog, fm, e.args[0], at, depth + 1)
+        return _trap_list_origin(prog, fm, e.args[0], at, depth + 1, filters)
     if isinstance(e, ast.ListComp):
-        if len(e.generators) != 1 or e.generators[0].ifs:
+        if len(e.generators) != 1:
             return False, "the trap list is filtered"
+        g0 = e.generators[0]
+        if g0.ifs:
+            if filters is None or text(e.elt) != text(g0.target):
+                return False, "the trap list is filtered"
+            for c in g0.ifs:
+                filters.append((c, g0.target))
+            return _trap_list_origin(prog, fm, g0.iter, at, depth + 1, filters)
         elt = e.elt
-        if not (isinstance(elt, ast.BinOp) and isinstance(elt.op, ast.BitOr)):
+        paired = isinstance(elt, ast.Tuple) and isinstance(g0.target, ast.Name) and \
+            any(isinstance(x, ast.Name) and x.id == g0.target.id for x in elt.elts)
+        if not paired and not (isinstance(elt, ast.BinOp) and isinstance(elt.op, ast.BitOr)):
             return False, f"elements `{text(elt)}` are not joined with the enclosing space"
         return _trap_list_origin(prog, fm, e.generators[0].iter, at, depth + 1)
     if isinstance(e, ast.Call) and callee_name(e) == "trappist":
@@ -544,22 +572,68 @@ def _trap_list_origin(prog, fm: FuncModel, e: ast.AST, at, depth: int) -> tuple[
 def blocks(ck: Check, rule: str) -> None:
     fm = ck.prog.fm(ALG + "expand_source_blocks", "expand_source_blocks")
     f = fm.f
-    # minimality filter
+    # minimality filter: a block is kept iff no other block is a strict subset of it -- written as two nested loops with
+    # a flag, or as a comprehension with `not any(other < block for other, _ in blocks)`
     probs = []
-    tests = [n for n in own_walk(f.node) if isinstance(n, ast.Compare) and len(n.ops) == 1
-             and isinstance(n.ops[0], (ast.Lt, ast.LtE, ast.Gt, ast.GtE)) and "block" in text(n)]
-    tests = [t for t in tests if "len(" not in text(t)]
-    if len(tests) != 1:
+    anchor = f.node
+    found = False
+
+    def first_name(t):
+        if isinstance(t, ast.Tuple) and t.elts and isinstance(t.elts[0], ast.Name):
+            return t.elts[0].id
+        return t.id if isinstance(t, ast.Name) else None
+
+    def strict_sub(t: ast.Compare, inner_t, outer_t) -> bool:
+        a_, b_ = text(t.left), text(t.comparators[0])
+        return (isinstance(t.ops[0], ast.Lt) and a_ == inner_t and b_ == outer_t) or \
+               (isinstance(t.ops[0], ast.Gt) and a_ == outer_t and b_ == inner_t)
+
+    # spelling (ii)
+    for comp in [n for n in own_walk(f.node) if isinstance(n, ast.ListComp) and len(n.generators) == 1 and len(n.generators[0].ifs) == 1]:
+        g0 = comp.generators[0]
+        c, neg = g0.ifs[0], False
+        while isinstance(c, ast.UnaryOp) and isinstance(c.op, ast.Not):
+            c, neg = c.operand, not neg
+        q = logic.quantifier(c)
+        if q is None:
+            continue
+        pos, it2, var2, cond2 = q
+        pos = pos != neg
+        if not (isinstance(cond2, ast.Compare) and len(cond2.ops) == 1 and isinstance(cond2.ops[0], (ast.Lt, ast.LtE, ast.Gt, ast.GtE))
+                and isinstance(cond2.left, ast.Name) and isinstance(cond2.comparators[0], ast.Name)):
+            continue
+        found = True
+        anchor = comp
+        outer_t = first_name(g0.target)
+        inner_t = var2 if isinstance(var2, str) else first_name(var2)
+        if pos or not strict_sub(cond2, inner_t, outer_t):
+            probs.append(f"a block is kept when `{'' if pos else 'not '}any({text(cond2)} ...)`; expected: when no other block is a "
+                         f"strict subset of it (`not any(other < block ...)`). With a non-strict or reversed test, minimal blocks "
+                         f"are discarded or dependent blocks are kept")
+        if fm.key(it2, fm.cfgn(comp)) != fm.key(g0.iter, fm.cfgn(comp)):
+            probs.append("every block must be compared with every block")
+        if ast.dump(comp.elt) != ast.dump(g0.target).replace("Store()", "Load()"):
+            probs.append("the kept blocks are not the blocks themselves")
+    # spelling (i)
+    tests = []
+    if not found:
+        for n in own_walk(f.node):
+            if isinstance(n, ast.Compare) and len(n.ops) == 1 and isinstance(n.ops[0], (ast.Lt, ast.LtE, ast.Gt, ast.GtE)) \
+                    and isinstance(n.left, ast.Name) and isinstance(n.comparators[0], ast.Name):
+                lp = [l for l in fm.cfg.enclosing_loops(fm.cfgn(n)) if isinstance(l, ast.For)]
+                if len(lp) >= 2 and {first_name(lp[0].target), first_name(lp[1].target)} == {n.left.id, n.comparators[0].id}:
+                    tests.append(n)
+    if found:
+        pass
+    elif len(tests) != 1:
         probs.append("block comparison not found")
     else:
         t = tests[0]
+        anchor = t
         lp = [l for l in fm.cfg.enclosing_loops(fm.cfgn(t)) if isinstance(l, ast.For)]
-        outer_t = text(lp[1].target.elts[0]) if len(lp) > 1 and isinstance(lp[1].target, ast.Tuple) else None
-        inner_t = text(lp[0].target.elts[0]) if lp and isinstance(lp[0].target, ast.Tuple) else None
-        a, b = text(t.left), text(t.comparators[0])
-        strict_sub = (isinstance(t.ops[0], ast.Lt) and a == inner_t and b == outer_t) or \
-                     (isinstance(t.ops[0], ast.Gt) and a == outer_t and b == inner_t)
-        if not strict_sub:
+        outer_t = first_name(lp[1].target)
+        inner_t = first_name(lp[0].target)
+        if not strict_sub(t, inner_t, outer_t):
             probs.append(f"a block is dropped when `{text(t)}`; expected: when another block is a strict subset of it "
                          f"(`other < block`). With a non-strict or reversed test, minimal blocks are discarded or dependent "
                          f"blocks are kept")
@@ -567,18 +641,18 @@ def blocks(ck: Check, rule: str) -> None:
             # flag false => not appended
             st = f.stmt_of(t)
             flags = [x for x in ast.walk(st) if isinstance(x, ast.Assign) and is_false(x.value)]
-            app = [x for x in own_walk(f.node) if isinstance(x, ast.Call) and isinstance(x.func, ast.Attribute)
-                   and x.func.attr == "append" and text(x.func.value) == "minimal_blocks"]
+            app = [x for x in ast.walk(lp[1]) if isinstance(x, ast.Call) and isinstance(x.func, ast.Attribute)
+                   and x.func.attr == "append" and x.args and isinstance(x.args[0], ast.Tuple)
+                   and x.args[0].elts and text(x.args[0].elts[0]) == outer_t]
             if not flags or not app:
                 probs.append("minimality flag / collection of minimal blocks not found")
             else:
-                pc = dom_pc_text(fm, fm.cfgn(app[0]), fm.cfg.loop_nodes[lp[1]] if len(lp) > 1 else None)
+                pc = dom_pc_text(fm, fm.cfgn(app[0]), fm.cfg.loop_nodes[lp[1]])
                 if not logic.implies(pc, logic.B("T:" + text(flags[0].targets[0]))):
                     probs.append("blocks are collected regardless of the minimality flag")
-        both = [l for l in lp if text(l.iter) == "blocks"]
-        if len(both) != 2:
+        if text(lp[0].iter) != text(lp[1].iter):
             probs.append("every block must be compared with every block")
-    ck.ob(rule, fm, tests[0] if tests else f.node, not probs, "; ".join(probs) if probs else
+    ck.ob(rule, fm, anchor, not probs, "; ".join(probs) if probs else
           "a block is dropped iff another block is a strict subset", key="block minimality")
     # what enters the next level
     probs = []
